@@ -22,10 +22,12 @@ Record case_t := Case {
 Definition model_state (c : case_t) : state * list (Z * Z) :=
   w_run (init_state (k_cap c) (k_chans c)) (k_script c).
 
-Definition model_obs (c : case_t) : list obs :=
+Definition model_obs_of (legacy : bool) (c : case_t) : list obs :=
   let '(st, _) := model_state c in
   let '(P, D, var) := chan_layout (s_db st) (k_key c) in
-  u_run P D var (eff_chunk (k_chunk c)) (u_open (k_bounds c)) (k_cmds c).
+  u_run P D var (eff_chunk (k_chunk c)) legacy (u_open (k_bounds c)) (k_cmds c).
+(* the correspondence runs the stepping code /repo carries (after the fix) *)
+Definition model_obs (c : case_t) : list obs := model_obs_of false c.
 
 Definition series_eqb (a b : series) : bool :=
   tr_eqb (sr_tr a) (sr_tr b) && list_eqb Z.eqb (sr_data a) (sr_data b).
@@ -55,8 +57,11 @@ Fixpoint series_ordered (f : list series) : bool :=
   end.
 
 (* (1) the value is exactly the stored samples of the view, in order; every series lies in
-   the view and carries exactly the samples of its own range; Valid <-> data and no error *)
+   the view and carries exactly the samples of its own range; Valid <-> data and no error.
+   An observation that reports an error (Error() <> nil: "the iterator stopped moving",
+   cleared only by a seek) claims no value; it must only be invalid. *)
 Definition exact_ok (tru : assoc) (o : obs) : bool :=
+  if negb (o_err o =? 0) then negb (o_valid o) else
   list_eqb Z.eqb (frame_data (o_frame o)) (read_spec tru (o_view o)) &&
   forallb (fun s => contains_range (o_view o) (sr_tr s) &&
                     list_eqb Z.eqb (sr_data s) (read_spec tru (sr_tr s))) (o_frame o) &&
@@ -68,28 +73,42 @@ Definition adjacent_ok (c1 c2 : cmd) (o1 o2 : obs) : bool :=
   (if is_fwd c1 && is_fwd c2 then t_s (o_view o2) =? t_e (o_view o1) else true) &&
   (if is_bwd c1 && is_bwd c2 then t_e (o_view o2) =? t_s (o_view o1) else true).
 Definition within_ok (b : tr) (c : cmd) (o : obs) : bool :=
-  if is_step c then (t_s b <=? t_s (o_view o)) && (t_s (o_view o) <=? t_e (o_view o)) && (t_e (o_view o) <=? t_e b)
+  if is_step c && (o_err o =? 0) then (t_s b <=? t_s (o_view o)) && (t_s (o_view o) <=? t_e (o_view o)) && (t_e (o_view o) <=? t_e b)
   else true.
 
 (* (4) a full traversal (SeekFirst; Next ... until the view reaches the end of the bounds, or
-   SeekLast; Prev ... until it reaches the start) visits every in-bounds sample exactly once *)
-Fixpoint trav_fwd (tru : assoc) (b : tr) (l : list (cmd * obs)) (acc : list Z) : bool :=
+   SeekLast; Prev ... until it reaches the start) visits every in-bounds sample exactly once.
+   A traversal made of automatic steps only must not stop with an error while in-bounds
+   samples are still unvisited (after an explicit step the position may lie between
+   domains, where the index cannot resolve a chunk: that error is outside the statement). *)
+Definition is_auto (c : cmd) : bool := match c with NextAuto | PrevAuto => true | _ => false end.
+Definition no_data (l : list Z) : bool := match l with [] => true | _ => false end.
+
+Fixpoint trav_fwd (tru : assoc) (b : tr) (l : list (cmd * obs)) (acc : list Z) (pure : bool) : bool :=
   match l with
   | (c, o) :: r =>
       if is_fwd c then
+        let pure := pure && is_auto c in
+        if negb (o_err o =? 0) then
+          if pure then no_data (read_spec tru (TR (t_s (o_view o)) (t_e b))) else true
+        else
         let acc := acc ++ frame_data (o_frame o) in
-        (if t_e (o_view o) =? t_e b then list_eqb Z.eqb acc (read_spec tru b) else true) &&
-        (if (t_e (o_view o) =? t_e b) then true else trav_fwd tru b r acc)
+        if t_e (o_view o) =? t_e b then list_eqb Z.eqb acc (read_spec tru b)
+        else trav_fwd tru b r acc pure
       else true
   | [] => true
   end.
-Fixpoint trav_bwd (tru : assoc) (b : tr) (l : list (cmd * obs)) (acc : list Z) : bool :=
+Fixpoint trav_bwd (tru : assoc) (b : tr) (l : list (cmd * obs)) (acc : list Z) (pure : bool) : bool :=
   match l with
   | (c, o) :: r =>
       if is_bwd c then
+        let pure := pure && is_auto c in
+        if negb (o_err o =? 0) then
+          if pure then no_data (read_spec tru (TR (t_s b) (t_e (o_view o)))) else true
+        else
         let acc := frame_data (o_frame o) ++ acc in
-        (if t_s (o_view o) =? t_s b then list_eqb Z.eqb acc (read_spec tru b) else true) &&
-        (if (t_s (o_view o) =? t_s b) then true else trav_bwd tru b r acc)
+        if t_s (o_view o) =? t_s b then list_eqb Z.eqb acc (read_spec tru b)
+        else trav_bwd tru b r acc pure
       else true
   | [] => true
   end.
@@ -102,8 +121,8 @@ Fixpoint ok_trace (tru : assoc) (b : tr) (prev : option (cmd * obs)) (l : list (
       exact_ok tru o && within_ok b' c o &&
       match prev with Some (c0, o0) => adjacent_ok c0 c o0 o | None => true end &&
       match c with
-      | SeekFirst => trav_fwd tru b' r []
-      | SeekLast => trav_bwd tru b' r []
+      | SeekFirst => trav_fwd tru b' r [] true
+      | SeekLast => trav_bwd tru b' r [] true
       | _ => true
       end &&
       ok_trace tru b' (Some (c, o)) r
@@ -112,8 +131,15 @@ Fixpoint ok_trace (tru : assoc) (b : tr) (prev : option (cmd * obs)) (l : list (
 Definition ok_C10 (tru : assoc) (b : tr) (cmds : list cmd) (os : list obs) : bool :=
   ok_trace tru b None (combine cmds os).
 
+(* The stored content is known from the history only if every write and commit of it
+   succeeded as a whole (a commit that fails for one channel may have committed others). *)
+Definition script_clean (c : case_t) : bool :=
+  forallb (fun oc => match fst oc with
+                     | WWrite _ | WCommit => (fst (snd oc) =? 0) || (fst (snd oc) =? 6)
+                     | _ => true end) (combine (k_script c) (k_sres c)).
+
 Definition violates (c : case_t) : bool :=
-  negb (ok_C10 (truth c) (k_bounds c) (k_cmds c) (k_obs c)).
+  script_clean c && negb (ok_C10 (truth c) (k_bounds c) (k_cmds c) (k_obs c)).
 
 Definition mismatches (cs : list case_t) : list nat := find_idx mismatch cs.
 Definition violations (cs : list case_t) : list nat := find_idx violates cs.
@@ -128,6 +154,7 @@ Definition model_dump (c : case_t) :=
 (* codes: 1 value <> samples of view, 2 a series not inside the view / not its own samples,
    3 series out of order, 4 Valid flag, 5 view outside bounds, 6 adjacency, 7 traversal *)
 Definition exact_codes (tru : assoc) (o : obs) : list Z :=
+  if negb (o_err o =? 0) then (if o_valid o then [4] else []) else
   (if list_eqb Z.eqb (frame_data (o_frame o)) (read_spec tru (o_view o)) then [] else [1]) ++
   (if forallb (fun s => contains_range (o_view o) (sr_tr s) &&
                     list_eqb Z.eqb (sr_data s) (read_spec tru (sr_tr s))) (o_frame o) then [] else [2]) ++
@@ -145,8 +172,8 @@ Fixpoint diag_trace (tru : assoc) (b : tr) (prev : option (cmd * obs)) (l : list
         (if within_ok b' c o then [] else [5]) ++
         (match prev with Some (c0, o0) => if adjacent_ok c0 c o0 o then [] else [6] | None => [] end) ++
         (match c with
-         | SeekFirst => if trav_fwd tru b' r [] then [] else [7]
-         | SeekLast => if trav_bwd tru b' r [] then [] else [7]
+         | SeekFirst => if trav_fwd tru b' r [] true then [] else [7]
+         | SeekLast => if trav_bwd tru b' r [] true then [] else [7]
          | _ => [] end) in
       (match codes with [] => [] | _ => [(n, codes)] end) ++ diag_trace tru b' (Some (c, o)) r (n + 1)
   end.
